@@ -3,6 +3,7 @@
 Model: {"compose": {...}, "version": "1.2"|...|None(unknown), "imgs": {iid: {15 attrs}},
         "cells": {variant: {arch: [iid, ...]}}, "legacy_collision": bool}
 """
+import collections
 import copy
 import json
 import re
@@ -255,7 +256,12 @@ class IMMachine(FormatMachine):
         if s is None:
             return "noop"
         iid = str(op["iid"])
-        img = self.mods().Image(s.obj)
+        parent = s.obj
+        if "parent_slot" in op:
+            # the image object was created for ANOTHER manifest (or for none) and is then filed in this one
+            ps = self.slots.get(op["parent_slot"])
+            parent = ps.obj if (op["parent_slot"] is not None and ps is not None) else None
+        img = self.mods().Image(parent)
         attrs = {}
         inplace = op.get("inplace") or []
         for f in IMG_FIELDS:
@@ -760,12 +766,19 @@ class IMMachine(FormatMachine):
                     cells[variant][arch] = keep
                 if src:
                     cells[variant]["src"] = [src[k] for k in sorted(src)]
+                    if op.get("drop_empty"):
+                        # an architecture left without any image of its own is not listed at all
+                        for arch in [a for a in cells[variant] if a != "src" and not cells[variant][a]]:
+                            del cells[variant][arch]
         # expected post-upgrade content, computed from the OLD document by the documented mapping
         exp_cells = {}
+        outside = []
         for variant in cells:
             binary = [a for a in cells[variant] if a != "src"]
             if not binary and "src" in cells[variant]:
-                return "noop-src-only"       # outside the claim: nowhere to re-file
+                # outside the claim (nowhere to re-file): what becomes of THIS variant is not judged - the others still are
+                outside.append(variant)
+                continue
             for arch in binary:
                 imgs = list(cells[variant][arch]) + list(cells[variant].get("src", []))
                 out = []
@@ -783,10 +796,21 @@ class IMMachine(FormatMachine):
             return "noop-collision"
         if moved:
             CTX.probe("c10.src_images_moved_to_src_key", moved)
-        self.fs.put(path, json.dumps(doc, indent=4, sort_keys=True, separators=(",", ": ")))
+        self.fs.put(path, json.dumps(doc, indent=4, sort_keys=True, separators=(",", ": ")) if not outside else
+                    json.dumps(collections.OrderedDict([("header", doc["header"]), ("payload", collections.OrderedDict([
+                        ("compose", doc["payload"]["compose"]),
+                        ("images", collections.OrderedDict((v, cells[v]) for v in (sorted(outside) + sorted(x for x in cells if x not in outside))))]))]),
+                        indent=4))        # (the src-only variants first in document order)
         self.durable[path] = {"expected": {"compose": d["expected"]["compose"], "cells": exp_cells}, "bytes": self.fs.get(path),
                               "clean": True, "legacy": True, "legacy_version": ver, "legacy_prop": op.get("tag", "C05"),
                               "source": "downgrade", "kw": {}}
+        if outside:
+            CTX.probe("c10.src_only_variant_in_document")
+            partial = {"compose": d["expected"]["compose"]}
+            for v, arches in exp_cells.items():
+                partial["cells/" + v] = arches
+            self.durable[path]["expected"] = None
+            self.durable[path]["partial"] = partial
         return "downgraded:%s:%d" % (ver, moved)
 
     def model_from_expected(self, s, expected):
